@@ -95,8 +95,25 @@ func oneTree(o *opts, r *rng, s *summary, i int, sc treeScenario, distinct map[s
 		}
 	default:
 		art = genTree(r, 0, to, &pool, s)
+		if sc.kind == "norec" {
+			// several sub-directories next to the files, in whatever order the file system lists them
+			for _, n := range []string{"Zsub", "asub", "msub"} {
+				art.set(n, nDir(Ent{"inner.txt", nFile(genContent(r, &pool))}))
+			}
+			art.sortEnts()
+		}
 		if sc.invalid {
-			art.set(invalidUtf8Name(r), nFile([]byte("x")))
+			if r.chance(1, 2) {
+				art.set(invalidUtf8Name(r), nFile([]byte("x")))
+			} else {
+				// a sub-directory with such a name (its files are fine), possibly one level down
+				bad := nDir(Ent{"fine.txt", nFile([]byte("fine"))})
+				if r.chance(1, 2) {
+					art.set(invalidUtf8Name(r), bad)
+				} else {
+					art.set("holder", nDir(Ent{invalidUtf8Name(r), bad}, Ent{"also.txt", nFile([]byte("y"))}))
+				}
+			}
 		}
 		if sc.foreign {
 			// a link to a live regular file outside the cache is not a file to version
